@@ -17,13 +17,15 @@
    begin); jbe  (one unsigned comparison of the wrapped difference).        *)
 EXTENDS Integers, TLC
 
-CONSTANTS WC, WI, WL, FIXED
+CONSTANTS WC, WI, WL, FIXED,
+          NarrowWrap   \* TRUE: a wrong Level I that converts labels to the UNPROMOTED controlling type (must be rejected)
 
 Pow(n) == 2 ^ n
 WrapU(x, w) == x % Pow(w)
 WrapS(x, w) == LET u == x % Pow(w) IN IF u >= Pow(w - 1) THEN u - Pow(w) ELSE u
 
-Types == { [n |-> "char",  w |-> WC, s |-> TRUE],  [n |-> "uchar", w |-> WC, s |-> FALSE],
+Types == { [n |-> "bool",  w |-> 1,  s |-> FALSE],
+           [n |-> "char",  w |-> WC, s |-> TRUE],  [n |-> "uchar", w |-> WC, s |-> FALSE],
            [n |-> "int",   w |-> WI, s |-> TRUE],  [n |-> "uint",  w |-> WI, s |-> FALSE],
            [n |-> "long",  w |-> WL, s |-> TRUE],  [n |-> "ulong", w |-> WL, s |-> FALSE] }
 Consts == (-Pow(WL - 1))..(Pow(WL) - 1)
@@ -38,16 +40,20 @@ RangeOK(t, lo, hi) == Conv(hi, Promoted(t)) - Conv(lo, Promoted(t)) = hi - lo
 MatchA(t, v, lo, hi) == LET p == Promoted(t) IN Conv(lo, p) <= v /\ v <= Conv(hi, p)
 
 (* ---- Level I ---- *)
-Stored(c) == IF FIXED THEN WrapS(c, WL) ELSE WrapS(WrapS(c, WL), WI)       \* const_expr() is int64_t; `int begin` truncates
+(* const_expr() is int64_t; `int begin` truncates (pinned tree).  The labels are NOT converted to the
+   narrow type of a char/short/_Bool controlling expression: the comparison happens after promotion,
+   so `case 200` on a signed char can never match (NarrowWrap would make it match -56).          *)
+Stored0(c) == IF FIXED THEN WrapS(c, WL) ELSE WrapS(WrapS(c, WL), WI)
+StoredT(tt, c) == IF NarrowWrap THEN Conv(Stored0(c), tt) ELSE Stored0(c)
 RejectI(t, lo, hi) ==
-  LET b == Stored(lo)  e == Stored(hi)  p == Promoted(t) IN
+  LET b == Stored0(lo)  e == Stored0(hi)  p == Promoted(t) IN
   IF ~FIXED THEN e < b
   ELSE IF p.w = WL /\ ~p.s THEN WrapU(e, WL) < WrapU(b, WL)
   ELSE IF p.w = WI /\ ~p.s THEN WrapU(e, WI) < WrapU(b, WI)
   ELSE IF p.w = WI THEN WrapS(e, WI) < WrapS(b, WI)
   ELSE e < b
 MatchI(t, v, lo, hi) ==
-  LET b  == Stored(lo)  e == Stored(hi)
+  LET b  == StoredT(t, lo)  e == StoredT(t, hi)
       w  == IF t.w = WL THEN WL ELSE WI             \* node->cond->ty->size == 8 ? %rax : %eax
       ax == WrapU(v, w)                             \* the register after gen_expr (sign/zero extended load)
       d  == IF FIXED THEN e - b ELSE WrapS(e - b, WI)   \* pinned: int arithmetic, immediate sign-extended
